@@ -23,6 +23,7 @@ import (
 	"github.com/go-i2p/common/signature"
 	"github.com/go-i2p/crypto/curve25519"
 	i2ped "github.com/go-i2p/crypto/ed25519"
+	elgamal "github.com/go-i2p/crypto/elg"
 	"github.com/go-i2p/crypto/types"
 )
 
@@ -357,8 +358,14 @@ func H_C14_LeaseSet() {
 	nd.Assume(derr == nil)
 	encKey, kerr := dest.PublicKey()
 	nd.Assume(kerr == nil)
-	ek := encKey.Bytes()
-	nd.Assume(ek[0] == 0 && ek[255] >= 2)
+	zeroKey := nd.Bool()
+	if zeroKey {
+		// an ElGamal "key" of value 0: outside the valid range, the wire parser rejects it -- so must the constructor
+		encKey = elgamal.ElgPublicKey{}
+	} else {
+		ek := encKey.Bytes()
+		nd.Assume(ek[0] == 0 && ek[255] >= 2)
+	}
 	dsk := nd.IntRange(-1, 1)
 	var spk types.SigningPublicKey = i2ped.Ed25519PublicKey(nd.Bytes(32 + dsk))
 	if dsk == 0 {
@@ -376,6 +383,7 @@ func H_C14_LeaseSet() {
 	if nl > 16 || dsk != 0 {
 		nd.Assert(err != nil, "ls/constructor-rejects-documented-defects")
 	}
+	_ = zeroKey
 	if err != nil {
 		nd.Cover("rejected")
 		return
@@ -430,5 +438,38 @@ func H_C14_RouterInfo() {
 		}
 		o, e2 := v.Bytes()
 		return o, len(rem), e2 == nil
+	})
+}
+
+// H_C14_EncryptedLeaseSetBig: the 16-bit inner-length field: NewEncryptedLeaseSet with inner data of 65535 bytes builds a
+// value that validates and round-trips; 65536 and 70000 bytes cannot be declared and have to be rejected by the
+// constructor (content concrete, header fields symbolic).
+//
+//verif:props C14
+//verif:witness roundtrip rejected
+//verif:steps 400000000
+//verif:loopcap 200000
+func H_C14_EncryptedLeaseSetBig() {
+	priv, pub := nd.Ed25519Key()
+	n := []int{65535, 65536, 70000}[nd.IntRange(0, 2)]
+	exp := nd.Uint16()
+	nd.Assume(exp != 0)
+	e, err := encrypted_leaseset.NewEncryptedLeaseSet(11, pub, nd.Uint32(), exp, 0, nil, make([]byte, n), ed25519.PrivateKey(priv))
+	if n > 65535 {
+		nd.Assert(err != nil, "encbig/constructor-rejects-inner-data-beyond-the-length-field")
+	}
+	if err != nil {
+		nd.Cover("rejected")
+		return
+	}
+	nd.Assert(e.Validate() == nil && e.IsValid(), "encbig/constructed-validates")
+	ser, serr := e.Bytes()
+	cleanRoundTrip("encbig", ser, serr, func(b []byte) ([]byte, int, bool) {
+		v, rem, e2 := encrypted_leaseset.ReadEncryptedLeaseSet(b)
+		if e2 != nil {
+			return nil, 0, false
+		}
+		o, e3 := v.Bytes()
+		return o, len(rem), e3 == nil
 	})
 }
